@@ -220,6 +220,11 @@ class G:
                 props.append(("FREEBUSY", (("FBTYPE", r.choice(("BUSY", "FREE"))),) if r.randrange(2) else (), ("freebusy", fb)))
         if r.randrange(6) == 0:
             props.append(("ATTACH", (("FMTTYPE", "text/plain"),), ("uri", "http://example.com/file.txt")))
+        if not self.api_safe and r.randrange(12) == 0:
+            # an inline attachment: base64 of octets that are not UTF-8 text - what the line denotes is that base64 text, untouched
+            import base64
+            payload = bytes(r.randrange(256) for _ in range(r.randrange(1, 40))) + b"\xff\xd8\xff\xe0"
+            props.append(("ATTACH", (("ENCODING", "BASE64"), ("VALUE", "BINARY")), ("uri", base64.b64encode(payload).decode("ascii"))))
         return props
 
     def later(self, start):
@@ -427,6 +432,8 @@ def emit_value(name, v):
 def quote_param(v):
     if any(c in v for c in ':;,'):
         return '"' + v + '"'
+    if len(v) % 3 == 1 and '"' not in v:
+        return '"' + v + '"'            # a writer may quote any value (a third of the others, chosen by length)
     return v
 
 
